@@ -397,6 +397,14 @@ def gen_program(seed, family=None, tight=True, T=None, on_grid=True, with_main=T
                 b.add({'op': 'AddSupplier', 'market': e['good'], 'supplier': other['bus'],
                        'eqn': 'MU*{name:inc_%s}' % e['names']['code']})
                 b.add({'op': 'AddMarket', 'business': other['bus'], 'market': e['good']})
+                if len(info['economies']) >= 3 and S['swarm'].random() < 0.4:
+                    # a second rule-based supplier from the third region: both carry the short code BUS
+                    third = info['economies'][(i + 2) % len(info['economies'])]
+                    mu2 = round(prm.uniform(0.02, 0.15), 3)
+                    b.add({'op': 'AddVariable', 'sector': e['good'], 'name': 'MU2', 'eqn': repr(mu2)})
+                    b.add({'op': 'AddSupplier', 'market': e['good'], 'supplier': third['bus'],
+                           'eqn': 'MU2*{name:inc_%s}' % e['names']['code']})
+                    b.add({'op': 'AddMarket', 'business': third['bus'], 'market': e['good']})
     elif family in ('multi_currency', 'multi_currency_supply', 'gold'):
         n = rng.choice([2, 2, 3])
         codes = rng.sample(['CA', 'US', 'JP', 'UK'], n)
@@ -447,6 +455,10 @@ def gen_program(seed, family=None, tight=True, T=None, on_grid=True, with_main=T
                 others = [e2[kk] for e2 in info['economies'] for kk in ('hh', 'gov', 'bus') if e2[kk] not in (src, tgt)]
                 b.add({'op': 'RegisterCashFlow', 'model': m, 'source': src, 'target': rng.choice(others), 'var': vn,
                        'inc_src': rng.random() < 0.7, 'inc_dst': rng.random() < 0.5})
+            elif S['swarm'].random() < 0.25:
+                # the very same transfer (payer, receiver, amount variable) registered a second time: it is paid twice
+                b.add({'op': 'RegisterCashFlow', 'model': m, 'source': src, 'target': tgt, 'var': vn,
+                       'inc_src': rng.random() < 0.5, 'inc_dst': rng.random() < 0.5})
         if family == 'multi_currency' and rng.random() < 0.3:
             # a rest-of-world sector living in the external sector's own country (currency NUMERAIRE)
             row = b.sector('Sector', ext, 'ROW', has_F=True)
